@@ -133,9 +133,13 @@ class Calls(object):
                     pats.append(ev.ev(p, st).e)
         finally:
             ev.bound = saved
-        if forall:
-            return SV(z3.ForAll(vs, b, patterns=pats) if pats else z3.ForAll(vs, b), TBool())
-        return SV(z3.Exists(vs, b, patterns=pats) if pats else z3.Exists(vs, b), TBool())
+        Q = z3.ForAll if forall else z3.Exists
+        if pats:
+            try:
+                return SV(Q(vs, b, patterns=pats), TBool())
+            except z3.Z3Exception:
+                pass    # pattern not admissible for these terms (e.g. contains ite): let z3 infer triggers
+        return SV(Q(vs, b), TBool())
 
     def spec_forall(self, ev, node, st):
         return self._quant(ev, node, st, True)
@@ -613,7 +617,14 @@ class Calls(object):
 
     # ------------------------------------------------------------------ comprehensions
     def listcomp(self, ev, node, st):
-        """[f(x) for x in xs if c(x)]  -> opaque sequence with length facts (map / filter shape)"""
+        """[f(x) for x in xs if c(x)]  (map / filter shape)
+
+        The result is a *function* of the source sequence and of the free variables of the element / filter
+        expressions (Python comprehensions are pure when their sub-expressions are); it is encoded as an
+        uninterpreted function symbol named after the normalised AST of (element, filters), plus element-wise
+        facts (every element of the result is elt(x) for an x of xs that passes the filters; length bounds).
+        A contract can therefore state `result == [<same comprehension>]`."""
+        import hashlib
         cx = self.cx
         if len(node.generators) != 1:
             raise Outside("nested comprehension")
@@ -622,33 +633,45 @@ class Calls(object):
         if not isinstance(src.t, TSeq):
             raise Outside("comprehension over %s" % src.t)
         o = src.t.ops(cx)
-        # evaluate the element expression on a generic element to learn its type
         x = SV(z3.FreshConst(src.t.elem.sort(cx), "cx"), src.t.elem)
         tmp = st.fork()
         saved_exc = ev.exc_out
         ev.exc_out = []
+        saved_spec = ev.spec
         self.fx.executor.assign(g.target, x, tmp, node)
+        bound_names = set(n.id for n in ast.walk(g.target) if isinstance(n, ast.Name))
         conds = [ev.truthy(ev.ev(c, tmp)) for c in g.ifs]
         el = ev.ev(node.elt, tmp)
         inner_exc = ev.exc_out
         ev.exc_out = saved_exc
-        if inner_exc:
+        if inner_exc and not ev.spec:
             raise Outside("comprehension body may raise")
+        # free variables captured by the comprehension
+        free = []
+        for sub in [node.elt] + list(g.ifs):
+            for n in ast.walk(sub):
+                if isinstance(n, ast.Name) and n.id not in bound_names and (n.id in st.env or n.id in ev.bound) and n.id not in free:
+                    free.append(n.id)
+        fvals = [ev.bound.get(nm) or st.env[nm] for nm in free]
+        fvals = [v for v in fvals if not isinstance(v.t, TNone)]
+        sig = ast.dump(ast.Tuple(elts=[g.target, node.elt] + list(g.ifs), ctx=ast.Load()), annotate_fields=False, include_attributes=False)
+        hname = hashlib.sha256(sig.encode()).hexdigest()[:10]
         rt = TSeq(el.t)
         ro = rt.ops(cx)
-        r = z3.FreshConst(rt.sort(cx), "comp")
+        f = cx.func("comp_%s_%s" % (hname, rt.name.replace("[", "_").replace("]", "_")),
+                    *([src.t.sort(cx)] + [v.t.sort(cx) for v in fvals] + [rt.sort(cx)]))
+        r = f(src.e, *[v.e for v in fvals])
         ln = ro["len"](r)
         if g.ifs:
             st.assume(ln <= o["len"](src.e))
         else:
             st.assume(ln == o["len"](src.e))
-        # element-wise fact: every element of r is elt(x) for some x of xs satisfying the filters
         j = z3.FreshConst(I, "j")
-        w = z3.Function("comp_w_%d" % id(node), I, I)
-        xj = o["nth"](src.e, w(j) if g.ifs else j)
-        body = z3.substitute(z3.And(*(conds + [ro["nth"](r, j) == el.e])) if True else None, (x.e, xj))
+        w = z3.Function("comp_w_%s" % hname, rt.sort(cx), I, I)
+        xj = o["nth"](src.e, w(r, j) if g.ifs else j)
+        body = z3.substitute(z3.And(*(conds + [ro["nth"](r, j) == el.e])), (x.e, xj))
         rng = z3.And(0 <= j, j < ln)
         if g.ifs:
-            body = z3.And(0 <= w(j), w(j) < o["len"](src.e), body)
+            body = z3.And(0 <= w(r, j), w(r, j) < o["len"](src.e), body)
         st.assume(z3.ForAll([j], z3.Implies(rng, body), patterns=[ro["nth"](r, j)]))
         return SV(r, rt)
